@@ -58,7 +58,7 @@ int pthread_mutex_lock(pthread_mutex_t *m) {
   }
   return real(m);
 }
-void vf_protect(void *obj, void *lock) { (void)obj; (void)lock; }
+void vf_protect(void *obj, unsigned long size, void *lock) { (void)obj; (void)size; (void)lock; }
 void vf_unprotect_all(void) { }
 #else
 /* translated-C build: rt.h provides the interface; it only needs the choice vector */
